@@ -12,6 +12,8 @@ import (
 	"fmt"
 	"io"
 	"log"
+	"os"
+	"path/filepath"
 	"time"
 
 	config "github.com/TheCacophonyProject/go-config"
@@ -285,12 +287,15 @@ func newAWorld(sc *aScenario, opt aOpts) *aWorld {
 		cont = w.sinks[zz.SinkCont]
 	}
 	mc := c.Motion
-	// production settings reach the processor through NewConfig, i.e. through validateConfig: whatever it
-	// does to a legal configuration is part of the behaviour under test (the oracles use the settings as
-	// written in c.Motion). A rejection of one of the generated configurations is not expected; if a later
-	// version refuses one, the run continues with the settings as written.
-	if v := mc; validateConfig(&v) == nil {
-		mc = v
+	// Production settings reach the processor through config.toml -> go-config -> NewConfig (which validates
+	// them): one run in three takes that road, so that whatever NewConfig does to a legal configuration is
+	// part of the behaviour under test (the oracles use the settings as written in c.Motion). A rejection of
+	// one of the generated configurations is not expected; should a later version refuse one, the run
+	// continues with the settings as written.
+	if verifsim.HashString(fmt.Sprintf("%+v", mc))%3 == 0 {
+		if v, ok := viaConfigFile(mc); ok {
+			mc = v
+		}
 	}
 	var motionRec recorder.Recorder = w.sinks[zz.SinkMotion]
 	if c.Thr != nil && !opt.NoThrottle {
@@ -522,4 +527,32 @@ func evString(ev []aEvent) string {
 		b = append(b, ch)
 	}
 	return string(b)
+}
+
+// viaConfigFile writes the settings as the [thermal-motion] section of a config.toml and reads them back
+// the way the daemon does.
+func viaConfigFile(m config.ThermalMotion) (config.ThermalMotion, bool) {
+	root := os.Getenv("VERIF_SCRATCH")
+	if root == "" {
+		root = os.TempDir()
+	}
+	dir, err := os.MkdirTemp(root, "vm")
+	if err != nil {
+		panic(err)
+	}
+	defer os.RemoveAll(dir)
+	toml := fmt.Sprintf("[thermal-motion]\ndynamic-threshold = %v\ntemp-thresh-min = %d\ntemp-thresh-max = %d\ntemp-thresh = %d\ndelta-thresh = %d\ncount-thresh = %d\nframe-compare-gap = %d\nuse-one-diff-only = %v\ntrigger-frames = %d\nwarmer-only = %v\nedge-pixels = %d\nverbose = %v\n",
+		m.DynamicThreshold, m.TempThreshMin, m.TempThreshMax, m.TempThresh, m.DeltaThresh, m.CountThresh, m.FrameCompareGap, m.UseOneDiffOnly, m.TriggerFrames, m.WarmerOnly, m.EdgePixels, m.Verbose)
+	if err := os.WriteFile(filepath.Join(dir, config.ConfigFileName), []byte(toml), 0644); err != nil {
+		panic(err)
+	}
+	rw, err := config.New(dir)
+	if err != nil {
+		panic(fmt.Sprintf("go-config rejected the generated file: %v", err))
+	}
+	got, err := NewConfig(rw, lepton3.Model)
+	if err != nil {
+		return m, false
+	}
+	return *got, true
 }
